@@ -1208,9 +1208,31 @@ func callBuiltin(caller *frame, callpos token.Pos, fn *ssa.Builtin, args []value
 		return caller.i.unsafeString(caller, args)
 	case "StringData", "SliceData":
 		return caller.i.unsafeData(caller, args)
+	case "Slice": // unsafe.Slice(ptr, len)
+		n := int(caller.asInt(args[1]))
+		switch p := args[0].(type) {
+		case uptr:
+			switch o := p.v.(type) {
+			case string, symstr:
+				res := make([]value, n)
+				copy(res, strElems(o)[:n])
+				return res
+			case []value:
+				return o[:n:n]
+			case nil:
+				if n == 0 {
+					return []value(nil)
+				}
+			}
+		case *value:
+			if p == nil && n == 0 {
+				return []value(nil)
+			}
+		}
+		panic(unsupported(fmt.Sprintf("unsafe.Slice(%T) in %s", args[0], caller.fn)))
 	}
 
-	panic(unsupported("built-in: " + fn.Name()))
+	panic(unsupported("built-in: " + fn.Name() + " in " + caller.fn.String()))
 }
 
 func rangeIter(fr *frame, x value, t types.Type) iter {
